@@ -215,6 +215,12 @@ theorem armTimer_sub {env : DEnv} {s : DState} {v : Invk} (hv : v ∈ s.d.invs) 
     · exact ⟨v, hv, rfl⟩
   · exact StateSub.refl _
 
+theorem preCancel_sub (s : DState) (v : Invk) (t : Nat) : StateSub s (preCancel s v t) := by
+  unfold preCancel
+  split
+  · exact StateSub.cancelTimer _ _
+  · exact StateSub.refl _
+
 theorem dispatch_sub {env : DEnv} {s : DState} {v : Invk} (hv : v ∈ s.d.invs) (caller : SessKey) (req : Nat)
     (callee : SessKey) (invReq timeout : Nat) (m : Msg) :
     StateSub s (dispatch env s caller req callee invReq v timeout m).st := by
@@ -285,8 +291,9 @@ theorem syncCall_frame {env : DEnv} {s : DState} (h : DealerInv s) (caller : Ses
     h caller req opts proc args kw rnd ?_ ?_ ?_ ?_ ?_ ?_ ?_ ?_
   · intro _; exact ofSub (StateSub.refl _)
   · intro iid v0 _ _ hv0 _ _ _ _
-    refine ofSub ((StateSub.setInv (v' := { v0 with inProgress := opts.optFlag OptProgress }) hv0 rfl).trans
-      (armTimer_sub ?_ ..))
+    refine ofSub (((StateSub.setInv (v' := { v0 with inProgress := opts.optFlag OptProgress }) hv0 rfl).trans
+      (preCancel_sub _ _ _)).trans (armTimer_sub ?_ ..))
+    rw [preCancel_d]
     unfold Dealer.setInv
     simp only
     exact (mem_map_update (f := fun x : Invk => x.id) (u := fun _ => { v0 with inProgress := opts.optFlag OptProgress })).2
